@@ -63,6 +63,25 @@ func c12Worlds() []c12World {
 		{0x04, 0x04, 0xa1, 0xb2, 0xc3, 0xd4}, {0x30, 0x04, 0x02, 0x02, 0x01, 0x00}, {'5', '0', '8', '0', '6', 'f'}, {'a', 'b', 0, 0, 0, 0}, {0x25, 0x32, 0x35, 0x26, 0x3d, 0x3f}} {
 		add("honest/fmspc="+hexs(f), honest(f), nil)
 	}
+	{ // the SGX extension lists its elements in other orders (optional ones before FMSPC, FMSPC first, reversed)
+		for _, ord := range [][]string{{"ppid", "tcb", "pceid", "type", "fmspc"}, {"type", "ppid", "tcb", "pceid", "fmspc"}, {"fmspc", "type", "pceid", "tcb", "ppid"}, {"ppid", "type", "tcb", "fmspc", "pceid"}} {
+			w := world.Honest("T")
+			top, tcb := world.SGXElems(w.Plat)
+			var seq [][]byte
+			for _, k := range ord {
+				if k == "tcb" {
+					seq = append(seq, world.SGXTcbElem(tcb))
+				} else {
+					seq = append(seq, top[k])
+				}
+			}
+			leaf := world.MakeCert(world.CertSpec{CN: world.CNLeaf, Key: T.LeafKey, SGXExt: world.DERSeq(seq...)}, T.Inter, T.InterKey)
+			p := w.Parts.Clone()
+			p.Chain = world.PEM(leaf, T.Inter, T.Root)
+			raw, _ := p.Bytes()
+			add("honest/sgx-elements="+strings.Join(ord, ","), w, raw)
+		}
+	}
 	{ // processor CA as issuer of the leaf (the library only accepts the platform CA name; the CRL request must still name "processor")
 		w := world.Honest("T")
 		pk := world.NewKey("T/processor-ca")
@@ -666,7 +685,7 @@ func c12EvalWorld(r *mc.Run, w c12World) {
 			r.Violate("more-checking-accepts-more:L1>L0", id, "accepted with collateral checking but rejected with signature and chain checking alone", nil)
 			out = "L1>L0"
 		}
-		if (strings.HasPrefix(w.name, "honest/fmspc") || w.name == "composed/default" || (strings.HasPrefix(w.name, "composed/fmspc=") && !strings.Contains(w.name, ","))) && !(acc[0] && acc[1] && acc[2]) {
+		if (strings.HasPrefix(w.name, "honest/fmspc") || strings.HasPrefix(w.name, "honest/sgx-elements") || w.name == "composed/default" || (strings.HasPrefix(w.name, "composed/fmspc=") && !strings.Contains(w.name, ","))) && !(acc[0] && acc[1] && acc[2]) {
 			r.Violate("honest-world-rejected", id, fmt.Sprintf("an honest world is not accepted at every level: %v", acc[:3]), nil)
 			out = "honest-rejected"
 		}
